@@ -584,3 +584,47 @@ Qed.
 Lemma admin_never_fails ae aevs :
   aconn_fresh [] aevs -> exists h, run hub_init (lower_all ae lite_init aevs) = HOk h.
 Proof. intros F. apply hub_total. apply lower_fresh. exact F. Qed.
+
+(* ---- the relay keeps letting connections in: after ANY history of API calls, a session for a booking that is not
+   denied followed by a connect presenting its code puts the new connection on the topic ---- *)
+Lemma run_app a : forall h b, run h (a ++ b) = match run h a with HOk h1 => run h1 b | x => x end.
+Proof.
+  induction a as [|e r IH]; intros h b; [reflexivity|].
+  unfold run in *. cbn [app run_gen]. destruct (step_gen true h e); [apply IH|reflexivity|reflexivity].
+Qed.
+
+Lemma lower_all_app ae a : forall l b,
+  lower_all ae l (a ++ b) = lower_all ae l a ++ lower_all ae (lite_after ae l a) b.
+Proof.
+  induction a as [|x r IH]; intros l b; [reflexivity|].
+  cbn [app lower_all lite_after]. destruct (lower ae l x) as [[l1 es] o]. cbn [fst]. rewrite IH, app_assoc. reflexivity.
+Qed.
+
+Lemma register_joins h n t cap h' : step h (Register n t cap) = HOk h' -> is_member n h' = true.
+Proof.
+  cbn [step step_gen]. intros H; inversion H; subst h'. unfold is_member. cbn [clients].
+  rewrite lookup_insert_eq by exact E. cbn [c_topic]. rewrite members_of_tins, N.eqb_refl.
+  apply memN_true. apply in_add_member. left. reflexivity.
+Qed.
+
+Lemma valid_connect_joins ae aevs code bid topic n cap :
+  aconn_fresh [] (aevs ++ [ASession code bid topic; AConnect code n cap]) ->
+  memN bid (denied (lite_after ae lite_init aevs)) = false ->
+  ((bid =? 0)%N && negb ae)%bool = false ->
+  exists h, run hub_init (lower_all ae lite_init (aevs ++ [ASession code bid topic; AConnect code n cap])) = HOk h /\
+            is_member n h = true.
+Proof.
+  intros F Hd H0.
+  destruct (admin_never_fails ae _ F) as [h Hrun].
+  exists h. split; [exact Hrun|].
+  rewrite lower_all_app in Hrun. set (l := lite_after ae lite_init aevs) in *.
+  cbn [lower_all lower] in Hrun. rewrite H0, Hd in Hrun. cbn [orb codes denied conns] in Hrun.
+  rewrite lookup_insert_eq in Hrun by exact E. rewrite Hd in Hrun.
+  change ([] ++ [WsAdd bid n; Register n topic cap] ++ []) with [WsAdd bid n; Register n topic cap] in Hrun.
+  rewrite run_app in Hrun.
+  destruct (run hub_init (lower_all ae lite_init aevs)) as [h1| |]; try discriminate.
+  unfold run in Hrun. cbn [run_gen] in Hrun.
+  destruct (step_gen true h1 (WsAdd bid n)) as [h2| |]; try discriminate.
+  destruct (step_gen true h2 (Register n topic cap)) as [h3| |] eqn:S3; try discriminate.
+  inversion Hrun; subst h3. eapply register_joins. exact S3.
+Qed.
